@@ -20,8 +20,11 @@ package xbinary
 //@   arith bv
 //@   ensures r2 != nil ==> r0 == 0 && r1 == 0
 //@   ensures r2 == nil ==> 1 <= r0 && r0 <= len(buf)
+//@   ghost x uint64
+//@   ensures [C15] isEnc(buf, x) ==> r2 == nil && r0 == usize(x) && r1 == uint(x)
 //@   loop 1
 //@     invariant 0 <= idx && idx <= len(buf)
+//@     invariant [C15] isEnc(buf, x) ==> idx < usize(x) && shft == 7*uint(idx) && res == uint(x) & ((1 << shft) - 1)
 //@     decreases len(buf) - idx
 
 //@ func UnmarshalBytes(buf []byte, newBuf bool) (int, []byte, error)
@@ -30,3 +33,280 @@ package xbinary
 //@   ensures r2 == nil ==> 1 <= r0 && r0 <= len(buf) && len(r1) <= r0 - 1
 //@   ensures r2 == nil && !newBuf ==> sameArray(r1, buf) && off(r1) == off(buf) + r0 - len(r1)
 //@   ensures r2 == nil && newBuf ==> fresh(r1) && forall(i, 0, len(r1), r1[i] == buf[r0 - len(r1) + i])
+//@   ghost n uint64
+//@   ensures [C15] isEnc(buf, n) && n <= len(buf) - usize(n) ==> r2 == nil && r0 == usize(n) + n && len(r1) == n && forall(i, 0, n, r1[i] == buf[usize(n) + i])
+//@   ensures [C15] isEnc(buf, n) && n > len(buf) - usize(n) ==> r2 != nil
+
+// ---- C15: spec functions ----
+
+// usize: number of 7-bit groups of v, from the encoding rule
+//@ spec usize(v uint64) int = ite(v < 1<<7, 1, ite(v < 1<<14, 2, ite(v < 1<<21, 3, ite(v < 1<<28, 4, ite(v < 1<<35, 5, ite(v < 1<<42, 6, ite(v < 1<<49, 7, ite(v < 1<<56, 8, ite(v < 1<<63, 9, 10)))))))))
+
+//@ func WritableUintSize(v uint64) int
+//@   props C15
+//@   arith bv
+//@   ensures r0 == usize(v)
+
+//@ func MarshalByte(v byte, buf []byte) (int, error)
+//@   props C15
+//@   modifies buf[*]
+//@   ensures len(buf) < 1 ==> r0 == 0 && r1 != nil
+//@   ensures len(buf) >= 1 ==> r0 == 1 && r1 == nil && buf[0] == v
+//@   ensures forall(i, 1, len(buf), buf[i] == old(buf[i]))
+
+//@ func MarshalUint16(v uint16, buf []byte) (int, error)
+//@   props C15
+//@   arith bv
+//@   modifies buf[*]
+//@   ensures len(buf) < 2 ==> r0 == 0 && r1 != nil
+//@   ensures len(buf) >= 2 ==> r0 == 2 && r1 == nil && buf[0] == byte(v >> 8) && buf[1] == byte(v)
+//@   ensures forall(i, 2, len(buf), buf[i] == old(buf[i]))
+
+//@ func UnmarshalUint16(buf []byte) (int, uint16, error)
+//@   props C15 C16
+//@   arith bv
+//@   ensures r2 != nil ==> r0 == 0 && r1 == 0
+//@   ensures r2 == nil ==> r0 == 2 && r0 <= len(buf)
+//@   ensures [C15] len(buf) >= 2 ==> r2 == nil && r1 == uint16(buf[1]) | uint16(buf[0])<<8
+
+//@ func MarshalUint32(v uint32, buf []byte) (int, error)
+//@   props C15
+//@   arith bv
+//@   modifies buf[*]
+//@   ensures len(buf) < 4 ==> r0 == 0 && r1 != nil
+//@   ensures len(buf) >= 4 ==> r0 == 4 && r1 == nil && buf[0] == byte(v >> 24) && buf[1] == byte(v >> 16) && buf[2] == byte(v >> 8) && buf[3] == byte(v)
+//@   ensures forall(i, 4, len(buf), buf[i] == old(buf[i]))
+
+//@ func UnmarshalUint32(buf []byte) (int, uint32, error)
+//@   props C15 C16
+//@   arith bv
+//@   ensures r2 != nil ==> r0 == 0 && r1 == 0
+//@   ensures r2 == nil ==> r0 == 4 && r0 <= len(buf)
+//@   ensures [C15] len(buf) >= 4 ==> r2 == nil && r1 == uint32(buf[3]) | uint32(buf[2])<<8 | uint32(buf[1])<<16 | uint32(buf[0])<<24
+
+//@ func MarshalUint64(v uint64, buf []byte) (int, error)
+//@   props C15
+//@   arith bv
+//@   modifies buf[*]
+//@   ensures len(buf) < 8 ==> r0 == 0 && r1 != nil
+//@   ensures len(buf) >= 8 ==> r0 == 8 && r1 == nil
+//@   ensures len(buf) >= 8 ==> buf[0] == byte(v >> 56) && buf[1] == byte(v >> 48) && buf[2] == byte(v >> 40) && buf[3] == byte(v >> 32)
+//@   ensures len(buf) >= 8 ==> buf[4] == byte(v >> 24) && buf[5] == byte(v >> 16) && buf[6] == byte(v >> 8) && buf[7] == byte(v)
+//@   ensures forall(i, 8, len(buf), buf[i] == old(buf[i]))
+
+//@ func UnmarshalUint64(buf []byte) (int, uint64, error)
+//@   props C15 C16
+//@   arith bv
+//@   ensures r2 != nil ==> r0 == 0 && r1 == 0
+//@   ensures r2 == nil ==> r0 == 8 && r0 <= len(buf)
+//@   ensures [C15] len(buf) >= 8 ==> r2 == nil && r1 == uint64(buf[7]) | uint64(buf[6])<<8 | uint64(buf[5])<<16 | uint64(buf[4])<<24 | uint64(buf[3])<<32 | uint64(buf[2])<<40 | uint64(buf[1])<<48 | uint64(buf[0])<<56
+
+// encbyte: i-th byte of the varint encoding of v; isEnc: buf starts with the encoding of x
+//@ spec encbyte(v uint64, i int) byte bv-only = byte((v >> (7*uint64(i))) & 127) | ite(i+1 < usize(v), byte(128), byte(0))
+//@ pred isEnc(buf []byte, x uint64) trig = usize(x) <= len(buf) && forall(i, 0, usize(x), buf[i] == encbyte(x, i))
+
+//@ func MarshalUint(v uint, buf []byte) (int, error)
+//@   props C15
+//@   arith bv
+//@   modifies buf[*]
+//@   ensures len(buf) <  usize(uint64(v)) ==> r0 == 0 && r1 != nil
+//@   ensures len(buf) >= usize(uint64(v)) ==> r1 == nil && r0 == usize(uint64(v))
+//@   ensures r1 == nil ==> isEnc(buf, uint64(v))
+//@   ensures r1 == nil ==> forall(i, r0, len(buf), buf[i] == old(buf[i]))
+//@   loop 1
+//@     invariant 0 <= idx && idx <= len(buf) && idx < usize(uint64(v0)) && v == v0 >> (7*uint(idx))
+//@     invariant forall(i, 0, idx, buf[i] == encbyte(uint64(v0), i))
+//@     invariant forall(i, idx, len(buf), buf[i] == old(buf[i]))
+//@     decreases usize(uint64(v0)) - idx
+
+//@ func MarshalBytes(v []byte, buf []byte) (int, error)
+//@   props C15
+//@   requires disjoint(v, buf)
+//@   modifies buf[*]
+//@   ensures len(buf) <  usize(uint64(len(v))) + len(v) ==> r0 == 0 && r1 != nil
+//@   ensures len(buf) >= usize(uint64(len(v))) + len(v) ==> r1 == nil && r0 == usize(uint64(len(v))) + len(v)
+//@   ensures r1 == nil ==> isEnc(buf, uint64(len(v))) && forall(i, 0, len(v), buf[usize(uint64(len(v))) + i] == v[i])
+//@   ensures r1 == nil ==> forall(i, r0, len(buf), buf[i] == old(buf[i]))
+
+//@ func WritebleBytesSize(buf []byte) int
+//@   props C15
+//@   ensures r0 == usize(uint64(len(buf))) + len(buf)
+
+//@ func MarshalString(v string, buf []byte) (int, error)
+//@   props C15
+//@   requires writable(buf)
+//@   modifies buf[*]
+//@   ensures len(buf) <  usize(uint64(len(v))) + len(v) ==> r0 == 0 && r1 != nil
+//@   ensures len(buf) >= usize(uint64(len(v))) + len(v) ==> r1 == nil && r0 == usize(uint64(len(v))) + len(v)
+//@   ensures r1 == nil ==> isEnc(buf, uint64(len(v))) && forall(i, 0, len(v), buf[usize(uint64(len(v))) + i] == v[i])
+//@   ensures r1 == nil ==> forall(i, r0, len(buf), buf[i] == old(buf[i]))
+
+//@ func UnmarshalString(buf []byte, newBuf bool) (int, string, error)
+//@   props C15 C16
+//@   ensures r2 != nil ==> r0 == 0 && r1 == ""
+//@   ensures r2 == nil ==> 1 <= r0 && r0 <= len(buf) && len(r1) <= r0 - 1
+//@   ensures r2 == nil ==> forall(i, 0, len(r1), r1[i] == buf[r0 - len(r1) + i])
+//@   ghost n uint64
+//@   ensures [C15] isEnc(buf, n) && n <= len(buf) - usize(n) ==> r2 == nil && r0 == usize(n) + n && len(r1) == n && forall(i, 0, n, r1[i] == buf[usize(n) + i])
+//@   ensures [C15] isEnc(buf, n) && n > len(buf) - usize(n) ==> r2 != nil
+
+//@ func WritableStringSize(v string) int
+//@   props C15
+//@   ensures r0 == usize(uint64(len(v))) + len(v)
+
+// ---- ObjectsWriter: emits through the io.Writer exactly the bytes the Marshal functions produce ----
+// w.wlen / w.wdata are the ghost stream of the io.Writer (bytes accepted so far).
+
+// kept(w): everything written before this call is still there
+//@ pred kept(w io.Writer) = forall(i, int, i < old(w.wlen) ==> w.wdata[i] == old(w.wdata[i]))
+// emitted(w, k): byte k of what this call appended
+//@ spec emitted(w io.Writer, k int) byte = w.wdata[old(w.wlen) + k]
+
+//@ func (ow *ObjectsWriter) WriteByte(v byte) (int, error)
+//@   props C15
+//@   requires ow != nil && ow.Writer != nil
+//@   modifies ow.buf[*], ow.Writer.wlen, ow.Writer.wdata
+//@   ensures r1 == nil ==> r0 == 1
+//@   ensures 0 <= r0 && r0 <= 1 && ow.Writer.wlen == old(ow.Writer.wlen) + r0 && kept(ow.Writer)
+//@   ensures r0 >= 1 ==> emitted(ow.Writer, 0) == v
+
+//@ func (ow *ObjectsWriter) WriteUint16(v uint16) (int, error)
+//@   props C15
+//@   requires ow != nil && ow.Writer != nil
+//@   modifies ow.buf[*], ow.Writer.wlen, ow.Writer.wdata
+//@   ensures r1 == nil ==> r0 == 2
+//@   ensures 0 <= r0 && r0 <= 2 && ow.Writer.wlen == old(ow.Writer.wlen) + r0 && kept(ow.Writer)
+//@   ensures r0 >= 1 ==> emitted(ow.Writer, 0) == byte(v >> 8)
+//@   ensures r0 >= 2 ==> emitted(ow.Writer, 1) == byte(v)
+
+//@ func (ow *ObjectsWriter) WriteUint32(v uint32) (int, error)
+//@   props C15
+//@   requires ow != nil && ow.Writer != nil
+//@   modifies ow.buf[*], ow.Writer.wlen, ow.Writer.wdata
+//@   ensures r1 == nil ==> r0 == 4
+//@   ensures 0 <= r0 && r0 <= 4 && ow.Writer.wlen == old(ow.Writer.wlen) + r0 && kept(ow.Writer)
+//@   ensures r0 >= 1 ==> emitted(ow.Writer, 0) == byte(v >> 24)
+//@   ensures r0 >= 2 ==> emitted(ow.Writer, 1) == byte(v >> 16)
+//@   ensures r0 >= 3 ==> emitted(ow.Writer, 2) == byte(v >> 8)
+//@   ensures r0 >= 4 ==> emitted(ow.Writer, 3) == byte(v)
+
+//@ func (ow *ObjectsWriter) WriteUint64(v uint64) (int, error)
+//@   props C15
+//@   requires ow != nil && ow.Writer != nil
+//@   modifies ow.buf[*], ow.Writer.wlen, ow.Writer.wdata
+//@   ensures r1 == nil ==> r0 == 8
+//@   ensures 0 <= r0 && r0 <= 8 && ow.Writer.wlen == old(ow.Writer.wlen) + r0 && kept(ow.Writer)
+//@   ensures r0 >= 1 ==> emitted(ow.Writer, 0) == byte(v >> 56)
+//@   ensures r0 >= 2 ==> emitted(ow.Writer, 1) == byte(v >> 48)
+//@   ensures r0 >= 3 ==> emitted(ow.Writer, 2) == byte(v >> 40)
+//@   ensures r0 >= 4 ==> emitted(ow.Writer, 3) == byte(v >> 32)
+//@   ensures r0 >= 5 ==> emitted(ow.Writer, 4) == byte(v >> 24)
+//@   ensures r0 >= 6 ==> emitted(ow.Writer, 5) == byte(v >> 16)
+//@   ensures r0 >= 7 ==> emitted(ow.Writer, 6) == byte(v >> 8)
+//@   ensures r0 >= 8 ==> emitted(ow.Writer, 7) == byte(v)
+
+//@ func (ow *ObjectsWriter) WriteUint(v uint) (int, error)
+//@   props C15
+//@   requires ow != nil && ow.Writer != nil
+//@   modifies ow.buf[*], ow.Writer.wlen, ow.Writer.wdata
+//@   ensures r1 == nil ==> r0 == usize(uint64(v))
+//@   ensures 0 <= r0 && r0 <= usize(uint64(v)) && ow.Writer.wlen == old(ow.Writer.wlen) + r0 && kept(ow.Writer)
+//@   ensures forall(j, old(ow.Writer.wlen), ow.Writer.wlen, ow.Writer.wdata[j] == encbyte(uint64(v), j - old(ow.Writer.wlen)))
+
+//@ func (ow *ObjectsWriter) WritePureBytes(v []byte) (int, error)
+//@   props C15
+//@   requires ow != nil && ow.Writer != nil
+//@   modifies ow.Writer.wlen, ow.Writer.wdata
+//@   ensures r1 == nil ==> r0 == len(v)
+//@   ensures 0 <= r0 && r0 <= len(v) && ow.Writer.wlen == old(ow.Writer.wlen) + r0 && kept(ow.Writer)
+//@   ensures forall(j, old(ow.Writer.wlen), ow.Writer.wlen, ow.Writer.wdata[j] == v[j - old(ow.Writer.wlen)])
+
+//@ func (ow *ObjectsWriter) WritePureString(v string) (int, error)
+//@   props C15
+//@   requires ow != nil && ow.Writer != nil
+//@   modifies ow.Writer.wlen, ow.Writer.wdata
+//@   ensures r1 == nil ==> r0 == len(v)
+//@   ensures 0 <= r0 && r0 <= len(v) && ow.Writer.wlen == old(ow.Writer.wlen) + r0 && kept(ow.Writer)
+//@   ensures forall(j, old(ow.Writer.wlen), ow.Writer.wlen, ow.Writer.wdata[j] == v[j - old(ow.Writer.wlen)])
+
+//@ func (ow *ObjectsWriter) WriteBytes(v []byte) (int, error)
+//@   props C15
+//@   requires ow != nil && ow.Writer != nil
+//@   modifies ow.buf[*], ow.Writer.wlen, ow.Writer.wdata
+//@   ensures r1 == nil ==> r0 == usize(uint64(len(v))) + len(v)
+//@   ensures 0 <= r0 && r0 <= usize(uint64(len(v))) + len(v) && ow.Writer.wlen == old(ow.Writer.wlen) + r0 && kept(ow.Writer)
+//@   ensures forall(j, old(ow.Writer.wlen), min(ow.Writer.wlen, old(ow.Writer.wlen) + usize(uint64(len(v)))), ow.Writer.wdata[j] == encbyte(uint64(len(v)), j - old(ow.Writer.wlen)))
+//@   ensures forall(j, old(ow.Writer.wlen) + usize(uint64(len(v))), ow.Writer.wlen, ow.Writer.wdata[j] == v[j - old(ow.Writer.wlen) - usize(uint64(len(v)))])
+
+//@ func (ow *ObjectsWriter) WriteString(v string) (int, error)
+//@   props C15
+//@   requires ow != nil && ow.Writer != nil
+//@   modifies ow.buf[*], ow.Writer.wlen, ow.Writer.wdata
+//@   ensures r1 == nil ==> r0 == usize(uint64(len(v))) + len(v)
+//@   ensures 0 <= r0 && r0 <= usize(uint64(len(v))) + len(v) && ow.Writer.wlen == old(ow.Writer.wlen) + r0 && kept(ow.Writer)
+//@   ensures forall(j, old(ow.Writer.wlen), min(ow.Writer.wlen, old(ow.Writer.wlen) + usize(uint64(len(v)))), ow.Writer.wdata[j] == encbyte(uint64(len(v)), j - old(ow.Writer.wlen)))
+//@   ensures forall(j, old(ow.Writer.wlen) + usize(uint64(len(v))), ow.Writer.wlen, ow.Writer.wdata[j] == v[j - old(ow.Writer.wlen) - usize(uint64(len(v)))])
+
+// ---- C15: round-trip lemmas, proved over the contracts above (calls are resolved by contract) ----
+
+//@ lemma func lemmaUintRoundTrip(v uint, buf []byte) (n int, m int, r uint, e1 error, e2 error)
+//@   props C15
+//@   requires len(buf) >= usize(uint64(v))
+//@   modifies buf[*]
+//@   ensures e1 == nil && e2 == nil && m == n && n == usize(uint64(v)) && r == v
+func lemmaUintRoundTrip(v uint, buf []byte) (int, int, uint, error, error) {
+	n, e1 := MarshalUint(v, buf)
+	m, r, e2 := UnmarshalUint(buf)
+	return n, m, r, e1, e2
+}
+
+//@ lemma func lemmaBytesRoundTrip(v []byte, buf []byte, newBuf bool) (n int, m int, r []byte, e1 error, e2 error)
+//@   props C15
+//@   requires disjoint(v, buf) && len(buf) >= usize(uint64(len(v))) + len(v)
+//@   modifies buf[*]
+//@   ensures e1 == nil && e2 == nil && m == n && n == usize(uint64(len(v))) + len(v)
+//@   ensures len(r) == len(v) && forall(i, 0, len(v), r[i] == v[i])
+//@   ensures newBuf ==> fresh(r)
+func lemmaBytesRoundTrip(v []byte, buf []byte, newBuf bool) (int, int, []byte, error, error) {
+	n, e1 := MarshalBytes(v, buf)
+	m, r, e2 := UnmarshalBytes(buf, newBuf)
+	return n, m, r, e1, e2
+}
+
+//@ lemma func lemmaStringRoundTrip(v string, buf []byte, newBuf bool) (n int, m int, r string, e1 error, e2 error)
+//@   props C15
+//@   requires writable(buf) && len(buf) >= usize(uint64(len(v))) + len(v)
+//@   modifies buf[*]
+//@   ensures e1 == nil && e2 == nil && m == n && n == usize(uint64(len(v))) + len(v)
+//@   ensures len(r) == len(v) && forall(i, 0, len(v), r[i] == v[i])
+func lemmaStringRoundTrip(v string, buf []byte, newBuf bool) (int, int, string, error, error) {
+	n, e1 := MarshalString(v, buf)
+	m, r, e2 := UnmarshalString(buf, newBuf)
+	return n, m, r, e1, e2
+}
+
+// concatenation: two items encoded back to back decode to the same two items
+//@ lemma func lemmaConcat(a uint, b []byte, buf []byte) (x uint, y []byte, ok bool)
+//@   props C15
+//@   requires disjoint(b, buf) && len(buf) >= usize(uint64(a)) + usize(uint64(len(b))) + len(b)
+//@   modifies buf[*]
+//@   ensures ok && x == a && len(y) == len(b) && forall(i, 0, len(b), y[i] == b[i])
+func lemmaConcat(a uint, b []byte, buf []byte) (uint, []byte, bool) {
+	n1, e1 := MarshalUint(a, buf)
+	if e1 != nil {
+		return 0, nil, false
+	}
+	n2, e2 := MarshalBytes(b, buf[n1:])
+	if e2 != nil {
+		return 0, nil, false
+	}
+	m1, x, e3 := UnmarshalUint(buf)
+	if e3 != nil || m1 != n1 {
+		return 0, nil, false
+	}
+	m2, y, e4 := UnmarshalBytes(buf[m1:], false)
+	if e4 != nil || m2 != n2 {
+		return 0, nil, false
+	}
+	return x, y, true
+}
